@@ -394,6 +394,17 @@ func c05Primary(r *Run, shape string, faulting, nested bool) {
 		}
 		if shape == "wal-restart-commit" {
 			h.conns[0].WalCheckpoint([]string{CkptRestart, CkptTruncate, CkptFull}[t.Next(3)])
+			// ... and sometimes LiteFS's own checkpoint on top (what every role
+			// change does): it empties the log and rewrites the SHM header, which
+			// the connection - which has restarted the log before - then trusts
+			// for the salt of the next log generation
+			if t.Chance(1, 2) {
+				if err := h.n.Store.Recover(context.Background()); err != nil {
+					r.Failf("c05.recover", "Store.Recover failed: %v", err)
+					return
+				}
+				r.Count("c05.litefs-checkpoint-before-commit")
+			}
 		}
 	}
 	if r.Failed() {
